@@ -2,14 +2,14 @@
 Driver for C16.  Request line:
   cfg=<share><leak> fuel=<n> P=<program in prefix notation, tokens separated by one space>
 program tokens:
-  lit <int> | tt | ff | emp | var <n> | dot | add E E | sub E E | mul E E | gt E E | eq E E
+  lit <int> | dlit <int> | elit <int> | inst <integer|decimal|double|boolean> E | tt | ff | emp | var <n> | dot | add E E | sub E E | mul E E | gt E E | eq E E
   | cat E E | ite E E E | for <x> E E | let <x> E E | fn <tok> <k> <p1>..<pk> E | named <builtin>
   | call E <k> A1..Ak   (A = `?` or E) | par E | smap E E | forEach E E | filter E E
   | foldL E E E | foldR E E E | pairs E E E | sortK E E | apply E <k> E1..Ek
   (argument order as in XPath: forEach S F, foldL S Z F, pairs S1 S2 F, sortK S F, apply F [M…])
 Answer:  model=<result> flags=<stale><scope><arity><focus><misc> spec=<result>
-result: items separated by `,` (`()` for the empty sequence): integers, `true`/`false`, `F` for a
-function item; `ERR:<code>` for an error.
+result: items separated by `,` (`()` for the empty sequence): integers, `D<n>` / `E<n>` for an
+integer-valued decimal / double, `true`/`false`, `F` for a function item; `ERR:<code>` for an error.
 -/
 import EPV.Proto
 import EPV.Model.Closures
@@ -23,6 +23,14 @@ def parseBuiltin : String → Option Builtin
 mutual
 partial def parseE : List String → Option (Expr × List String)
   | "lit" :: n :: r => (int? n).map fun v => (.lit v, r)
+  | "dlit" :: n :: r => (int? n).map fun v => (.dlit v, r)
+  | "elit" :: n :: r => (int? n).map fun v => (.elit v, r)
+  | "inst" :: t :: r => do
+    let t ← (match t with
+      | "integer" => some Ty.integer | "decimal" => some Ty.decimal | "double" => some Ty.double
+      | "boolean" => some Ty.boolean | _ => none)
+    let (e, r) ← parseE r
+    pure (.inst t e, r)
   | "tt" :: r => some (.tt, r)
   | "ff" :: r => some (.ff, r)
   | "emp" :: r => some (.emp, r)
@@ -82,6 +90,8 @@ def showItem : Item → String
   | .int n => toString n
   | .bool b => if b then "true" else "false"
   | .fn _ => "F"
+  | .dec n => "D" ++ toString n
+  | .dbl n => "E" ++ toString n
 
 def showRes : Except Err Seq → String
   | .error e => "ERR:" ++ e.code
